@@ -86,6 +86,10 @@ def replay_fh(args, outdir):
         def __str__(self): return self.t
     try:
         HLmod.gzip = gate
+        if a.get('stale'):
+            for mate in ('R1', 'R2'):
+                with gzip.open('%s/lib.1.CS2.%s.fastq.gz' % (d, mate), 'wt') as h:
+                    h.write('@old\nT\n+\nI\n')
         fh = FastqHandle(d + '/lib', pairedEnd=True, single_cell=True, maxHandles=a['maxh'])
         fh.handles.pruneEvery = 2
         exp = {}
